@@ -19,6 +19,21 @@ pub enum How {
     StopAndRecord,
     StopAndDiscard,
     Drop,
+    /// dropped while the thread unwinds from a panic (caught inside the operation)
+    PanicDrop,
+}
+struct InjectedPanic;
+/// Drop `x` during the unwinding of a panic raised right here.
+fn drop_while_unwinding<T>(x: T) {
+    let r = std::panic::catch_unwind(std::panic::AssertUnwindSafe(move || {
+        let _x = x;
+        std::panic::resume_unwind(Box::new(InjectedPanic));
+    }));
+    match r {
+        Err(e) if e.is::<InjectedPanic>() => {}
+        Err(e) => std::panic::resume_unwind(e),
+        Ok(()) => unreachable!(),
+    }
 }
 #[derive(Serialize, Deserialize, Clone, Debug, PartialEq)]
 pub enum TOp {
@@ -41,6 +56,9 @@ pub struct TimerPlan {
     /// bucket bounds in quanta
     pub bounds_q: Vec<u32>,
     pub threads: Vec<Vec<TOp>>,
+    /// the threads end by panicking: timers still held and the local histogram are dropped by unwinding
+    #[serde(default)]
+    pub panic_end: bool,
 }
 
 fn gen_plan(seed: u64) -> TimerPlan {
@@ -72,7 +90,7 @@ fn gen_plan(seed: u64) -> TimerPlan {
                     let cand: Vec<u32> = open_by_thread[t].iter().map(|x| x.0).collect();
                     let id = if !cand.is_empty() && r.chance(80) { *r.pick(&cand) } else { r.below(next_id.max(1) as u64) as u32 };
                     open_by_thread[t].retain(|x| x.0 != id);
-                    TOp::Stop { id, how: r.pick(&[How::ObserveDuration, How::StopAndRecord, How::StopAndDiscard, How::Drop]).clone() }
+                    TOp::Stop { id, how: r.pick(&[How::ObserveDuration, How::StopAndRecord, How::StopAndDiscard, How::Drop, How::Drop, How::PanicDrop]).clone() }
                 }
                 70..=77 if nthreads > 1 => {
                     let cand: Vec<u32> = open_by_thread[t].iter().filter(|x| !x.1).map(|x| x.0).collect();
@@ -104,7 +122,8 @@ fn gen_plan(seed: u64) -> TimerPlan {
     let mut bounds_q: Vec<u32> = (0..nb).map(|_| *r.pick(&[0u32, 1, 16, 512, 2048, 100000])).collect();
     bounds_q.sort();
     bounds_q.dedup();
-    TimerPlan { env, bounds_q, threads }
+    let panic_end = r.chance(20);
+    TimerPlan { env, bounds_q, threads, panic_end }
 }
 
 enum AnyTimer {
@@ -139,6 +158,7 @@ fn execute(plan: &TimerPlan, mode: Mode) -> RunOut {
         let h = h.clone();
         let results = results.clone();
         let mailbox = mailbox.clone();
+        let panic_end = plan.panic_end;
         sim.spawn(&format!("sim{}", t), false, move |ctx| {
             let local: LocalHistogram = h.local();
             let mut held: BTreeMap<u32, AnyTimer> = BTreeMap::new();
@@ -180,6 +200,10 @@ fn execute(plan: &TimerPlan, mode: Mode) -> RunOut {
                                     drop(tm);
                                     TRes::Stopped(*id, how.clone(), None)
                                 }
+                                How::PanicDrop => {
+                                    drop_while_unwinding(tm);
+                                    TRes::Stopped(*id, how.clone(), None)
+                                }
                             },
                             Some(AnyTimer::L(tm)) => match how {
                                 How::ObserveDuration => {
@@ -190,6 +214,10 @@ fn execute(plan: &TimerPlan, mode: Mode) -> RunOut {
                                 How::StopAndDiscard => TRes::Stopped(*id, how.clone(), Some(tm.stop_and_discard())),
                                 How::Drop => {
                                     drop(tm);
+                                    TRes::Stopped(*id, how.clone(), None)
+                                }
+                                How::PanicDrop => {
+                                    drop_while_unwinding(tm);
                                     TRes::Stopped(*id, how.clone(), None)
                                 }
                             },
@@ -222,8 +250,12 @@ fn execute(plan: &TimerPlan, mode: Mode) -> RunOut {
             let id = op_id(t, 900);
             ctx.invoke(id);
             let left: Vec<u32> = held.keys().copied().collect();
-            drop(held);
-            drop(local);
+            if panic_end {
+                drop_while_unwinding((held, local));
+            } else {
+                drop(held);
+                drop(local);
+            }
             ctx.ret(id);
             results.lock().unwrap().push((id, Ok(TRes::Dropped(left))));
             let _ = nthreads;
